@@ -12,6 +12,7 @@ import CaddyModel.C18.Preserve
 import CaddyModel.C18.Rewrite
 import CaddyModel.C18.Consumers
 import CaddyModel.C18.CallSites
+import CaddyModel.C18.CallSitesTree
 import CaddyModel.Gen.Consts
 
 namespace CaddyModel.C18
